@@ -55,7 +55,7 @@ TRANSLATORS = [
     ('gen_C15', [('generate', 'C15_Netutils.v')]),
     ('gen_C16', [('generate_slug', 'C16_Slug.v'), ('generate_code', 'C16_Code.v'), ('generate_fold', 'C16_Fold.v'),
                  ('generate_aliases', 'C16_Aliases.v')]),
-    ('gen_versionutils', [('generate', 'Versionutils.v'), ('generate_code', 'VersionutilsCode.v')]),
+    ('gen_versionutils', [('generate', 'Versionutils.v'), ('generate_code', 'VersionutilsCode.v'), ('generate_code17', 'C17_Code.v')]),
     ('gen_C18', [('generate', 'C18_SpecsMatcher.v')]),
     ('gen_C19', [('generate_split_path', 'C19_SplitPath.v'), ('generate_grammar', 'C19_Grammar.v')]),
     ('gen_C20', [('generate_consts', 'C20_Consts.v'), ('generate_code', 'C20_Code.v')]),
